@@ -1,11 +1,16 @@
 #!/venv/bin/python
 """
-usage: tools/keep_seed.py <PROP> <seed dir (patch.diff, demo.py, README.md)> <name> [--force]
+usage: tools/keep_seed.py <PROP> <seed dir (patch.diff, demo.py, README.md)> <name> --base <repo commit> [--force]
 
-Confirms a seeded change in a scratch worktree of /repo's HEAD (demo passes on the clean tree, fails with the patch, the
-pinned suite still passes with the patch), runs every registered quick check against /repo with the patch applied (dry:
-evidence untouched; /repo restored straight afterwards), and stores the seed under /verif/seeded/<PROP>-<name>/ with a
-meta.json recording what was run and which checks / rules reported it.
+A seeded change is pinned to the repository commit it was written against (`base`).  In a scratch worktree of that commit
+(outside /repo and /verif, removed afterwards) this tool
+  1. runs the demonstration on the clean tree (must exit 0) and with the patch applied (must fail), and the pinned 70-test
+     suite with the patch (must still pass);
+  2. runs every registered quick check against the scratch tree (EQL_VERIF_REPO=<scratch>, dry: no evidence written) without
+     and with the patch, and attributes to the seed exactly the violations / analysis errors that the patch ADDS;
+  3. does the same against /repo's HEAD when the patch still applies there (later fix: commits may have removed the
+     conditions the seed needs, or touched the same lines).
+The seed is stored under /verif/seeded/<PROP>-<name>/ with a meta.json recording all of that.
 """
 import json, os, re, shutil, subprocess, sys, tempfile
 
@@ -17,79 +22,97 @@ def sh(cmd, **kw):
     return subprocess.run(cmd, shell=True, capture_output=True, text=True, **kw)
 
 
-def main():
-    prop, sdir, name = sys.argv[1], os.path.abspath(sys.argv[2]), sys.argv[3]
-    patch, demo = os.path.join(sdir, "patch.diff"), os.path.join(sdir, "demo.py")
+def run_checks(repo_dir):
+    """{prop: set of 'RULE:construct' violations} and {prop: set of undecided rules}"""
+    viol, und = {}, {}
+    procs = {}
+    for pid in PROPS:
+        procs[pid] = subprocess.Popen(["./run", "check", pid], cwd=VERIF, stdout=subprocess.PIPE, stderr=subprocess.STDOUT, text=True,
+                                      env=dict(os.environ, EQL_VERIF_DRY="1", EQL_VERIF_REPO=repo_dir))
+    for pid, p in procs.items():
+        out, _ = p.communicate()
+        v = set(f"{a}:{b}" for a, b in re.findall(r"rule=([A-Z0-9-]+) construct=(.+?): ", out))
+        v |= set(f"{a}:{b}" for a, b in re.findall(r"KNOWN-FINDING: property=\S+ ([A-Z0-9-]+) (.+?): ", out))
+        u = set(re.findall(r"ANALYSIS-ERROR property=\S+ rule=(\S+)", out))
+        viol[pid], und[pid] = v, u
+    return viol, und
+
+
+def evaluate(commit, patch, demo, label):
     w = tempfile.mkdtemp(prefix="eqlseed.", dir="/tmp")
     os.rmdir(w)
-    r = sh(f"git -C /repo worktree add -q --detach {w} HEAD")
+    r = sh(f"git -C /repo worktree add -q --detach {w} {commit}")
     if r.returncode:
-        print("cannot create worktree", r.stderr); return 2
+        return {"error": f"cannot create worktree at {commit}: {r.stderr.strip()}"}
     env = dict(os.environ, PYTHONPATH=f"{w}/src")
+    res = {"commit": sh(f"git -C {w} log --format=%h -1").stdout.strip()}
     try:
-        c = subprocess.run(["/venv/bin/python", demo], cwd=w, env=env, capture_output=True, text=True, timeout=600)
-        a = sh(f"git apply {patch}", cwd=w)
-        if a.returncode:
-            print("PATCH DOES NOT APPLY to HEAD:", a.stderr.strip()[:300]); return 3
-        p = subprocess.run(["/venv/bin/python", demo], cwd=w, env=env, capture_output=True, text=True, timeout=600)
+        if sh(f"git apply --check {patch}", cwd=w).returncode:
+            res["applies"] = False
+            return res
+        res["applies"] = True
+        c = subprocess.run(["/venv/bin/python", demo], cwd=w, env=env, capture_output=True, text=True, timeout=900)
+        v0, u0 = run_checks(w)
+        sh(f"git apply {patch}", cwd=w)
+        p = subprocess.run(["/venv/bin/python", demo], cwd=w, env=env, capture_output=True, text=True, timeout=900)
         s = sh(f"{VERIF}/tools/suite.sh {w}")
+        v1, u1 = run_checks(w)
+        res.update({"demo_on_clean_tree_exit": c.returncode, "demo_with_patch_exit": p.returncode,
+                    "suite_with_patch": s.stdout.strip(), "suite_ok": s.returncode == 0})
+        added = {}
+        for pid in PROPS:
+            dv = sorted(v1[pid] - v0[pid])
+            du = sorted(u1[pid] - u0[pid])
+            if dv or du:
+                added[pid] = {"violations_added": dv[:8], "analysis_errors_added": du}
+        res["reported_by"] = added
     finally:
         sh(f"git -C /repo worktree remove --force {w}")
-    suite_ok = s.returncode == 0
-    print(f"demo clean exit={c.returncode} patched exit={p.returncode} suite: {s.stdout.strip()}")
-    confirmed = c.returncode == 0 and p.returncode != 0 and suite_ok
+    print(f"[{label} {res['commit']}] applies={res.get('applies')} demo clean={res.get('demo_on_clean_tree_exit')} "
+          f"patched={res.get('demo_with_patch_exit')} suite_ok={res.get('suite_ok')} "
+          f"reported_by={ {k: (v['violations_added'] or v['analysis_errors_added'])[0][:60] for k, v in res.get('reported_by', {}).items()} }")
+    return res
+
+
+def main():
+    prop, sdir, name = sys.argv[1], os.path.abspath(sys.argv[2]), sys.argv[3]
+    base = sys.argv[sys.argv.index("--base") + 1]
+    patch, demo = os.path.join(sdir, "patch.diff"), os.path.join(sdir, "demo.py")
+    at_base = evaluate(base, patch, demo, "base")
+    confirmed = at_base.get("applies") and at_base.get("demo_on_clean_tree_exit") == 0 and \
+        at_base.get("demo_with_patch_exit") not in (0, None) and at_base.get("suite_ok")
     if not confirmed and "--force" not in sys.argv:
-        print("NOT CONFIRMED; not kept"); return 4
-    # run the checks against /repo with the patch applied
-    if sh("git -C /repo diff --quiet").returncode:
-        print("/repo dirty"); return 2
-    a = sh(f"git -C /repo apply {patch}")
-    fired = {}
-    try:
-        for pid in PROPS:
-            r = subprocess.run(["./run", "check", pid], cwd=VERIF, env=dict(os.environ, EQL_VERIF_DRY="1"),
-                               capture_output=True, text=True)
-            if r.returncode != 0:
-                rules = sorted(set(re.findall(r"rule=([A-Z0-9-]+) construct=([^:]+):", r.stdout)))
-                errs = re.findall(r"ANALYSIS-ERROR property=\S+ rule=(\S+)", r.stdout)
-                fired[pid] = {"exit": r.returncode, "violations": [f"{a_}:{b_}" for a_, b_ in rules][:6],
-                              "analysis_errors": sorted(set(errs))}
-    finally:
-        sh("git -C /repo checkout -- .")
-    own = fired.get(prop, {})
-    caught_by_own = own.get("exit") == 1
-    print(f"checks reporting it: { {k: v['violations'][:2] or v['analysis_errors'] for k, v in fired.items()} }")
-    print(f"caught by {prop}'s own check: {caught_by_own}")
+        print("NOT CONFIRMED at its base commit; not kept")
+        return 4
+    at_head = evaluate("HEAD", patch, demo, "head")
+    own = at_base.get("reported_by", {}).get(prop, {})
+    caught_own = bool(own.get("violations_added"))
+    caught_other = [k for k, v in at_base.get("reported_by", {}).items() if k != prop and v.get("violations_added")]
+    print(f"reported by {prop}'s own check (violation added by the patch): {caught_own}; by other checks: {caught_other}")
     dest = os.path.join(VERIF, "seeded", f"{prop}-{name}")
     os.makedirs(dest, exist_ok=True)
-    shutil.copy(patch, os.path.join(dest, "patch.diff"))
-    shutil.copy(demo, os.path.join(dest, "demo.py"))
-    readme = os.path.join(sdir, "README.md")
-    if os.path.exists(readme):
-        shutil.copy(readme, os.path.join(dest, "README.md"))
-    head = sh("git -C /repo log --format=%h -1").stdout.strip()
+    for f in ("patch.diff", "demo.py", "README.md"):
+        src = os.path.join(sdir, f)
+        if os.path.exists(src) and os.path.abspath(src) != os.path.abspath(os.path.join(dest, f)):
+            shutil.copy(src, os.path.join(dest, f))
+    readme = os.path.join(dest, "README.md")
     needs = ""
     if os.path.exists(readme):
         txt = open(readme).read()
         m = re.search(r"(?is)(needs?[^\n]*\n(?:.*\n){0,8})", txt)
         needs = (m.group(1).strip()[:700] if m else txt[:500])
     meta = {
-        "property": prop,
-        "name": name,
-        "source": "independent sub-agent given only the property text and a scratch worktree",
+        "property": prop, "name": name,
+        "source": "independent sub-agent given only the property text and a scratch worktree of /repo at base_commit",
+        "base_commit": at_base.get("commit"),
         "needs_to_manifest": needs,
-        "confirmed": {
-            "repo_head": head,
-            "demo_on_clean_tree_exit": c.returncode,
-            "demo_with_patch_exit": p.returncode,
-            "suite_with_patch": s.stdout.strip(),
-            "commands": ["git worktree add --detach <scratch> HEAD", "PYTHONPATH=<scratch>/src /venv/bin/python demo.py",
-                         "git apply patch.diff", "PYTHONPATH=<scratch>/src /venv/bin/python demo.py",
-                         "tools/suite.sh <scratch>", "git worktree remove --force <scratch>",
-                         "git -C /repo apply patch.diff; EQL_VERIF_DRY=1 ./run check <each id>; git -C /repo checkout -- ."],
-        },
-        "checks_reporting_it": fired,
-        "caught_by_own_property_check": caught_by_own,
+        "confirmed_at_base": at_base,
+        "at_repo_head": at_head,
+        "reported_by_own_property_check": caught_own,
+        "reported_by_other_checks": caught_other,
+        "how": ["git -C /repo worktree add --detach <scratch> <commit>", "PYTHONPATH=<scratch>/src /venv/bin/python demo.py  (clean, then after git apply patch.diff)",
+                "tools/suite.sh <scratch>  (pinned 70 tests)", "EQL_VERIF_REPO=<scratch> EQL_VERIF_DRY=1 ./run check <id>  for every id, without and with the patch; "
+                "only violations the patch adds are attributed to it", "git -C /repo worktree remove --force <scratch>"],
     }
     json.dump(meta, open(os.path.join(dest, "meta.json"), "w"), indent=1)
     print("kept as", dest)
